@@ -1,7 +1,7 @@
 (* C08: the connect callback runs at most once and before every other per-connection
    callback, for ALL schedules of Model/SubLifecycle.v. *)
 From Coq Require Import List NArith ZArith Bool Lia.
-From Cfg Require Import Model.SubLifecycle Proofs.SubLifecycleLib.
+From Cfg Require Import Model.SubLifecycle Proofs.SubLifecycleLib Proofs.SubBroker Proofs.SubBrokerStep Proofs.SubLocks.
 Import ListNotations.
 Open Scope N_scope.
 
@@ -19,9 +19,11 @@ Record CbInv (s : st) : Prop := {
   cb_none : hreg s = false -> cbs (trace s) = [];
   cb_first : hreg s = true -> exists l, cbs (trace s) = EvConnectCb :: l /\ ~ In EvConnectCb l;
   cb_cli : forall t a, thr s t = Some (TAtt a) -> a_kind a = Cli -> hreg s = true;
-  cb_con : forall t pc, thr s t = Some (TCon pc) -> kstarted s = true /\ hreg s = negb (pre_enter pc);
+  (* any number of connect commands may be in flight; one past KEnter means the handlers are registered *)
+  cb_con : forall t pc, thr s t = Some (TCon pc) -> kstarted s = true /\ (pre_enter pc = false -> hreg s = true);
   cb_hk : hreg s = true -> kstarted s = true;
-  cb_one : forall t t' pc pc', thr s t = Some (TCon pc) -> thr s t' = Some (TCon pc') -> t = t';
+  (* handlers registered: the connect handler section is still running, or the status has left Connecting *)
+  cb_pre : hreg s = true -> status s <> Connecting \/ exists t pc, thr s t = Some (TCon pc) /\ pre_enter pc = false;
   cb_conn : status s = Connected -> hreg s = true;
   cb_prev : forall t k, thr s t = Some (TCls k) -> k_prev k = Connected -> hreg s = true
 }.
@@ -56,7 +58,7 @@ Lemma Cb_step s s' t o' es nt :
   CbInv s -> thr s t <> None ->
   trace s' = trace s ++ es ->
   hreg s' = hreg s -> kstarted s' = kstarted s ->
-  (status s' = Connected -> hreg s = true \/ status s = Connected) ->
+  (status s' = status s \/ status s' = Closed \/ (status s' = Connected /\ hreg s = true)) ->
   (forall e, In e es -> is_cb e = true -> e <> EvConnectCb /\ hreg s = true) ->
   (forall t0, t0 <> t -> thr s' t0 = thr s t0 \/
                           (t0 = nt /\ thr s t0 = None /\
@@ -66,9 +68,12 @@ Lemma Cb_step s s' t o' es nt :
   (forall a, o' = Some (TAtt a) -> a_kind a = Cli -> hreg s = true) ->
   (forall pc, o' = Some (TCon pc) -> exists pc0, thr s t = Some (TCon pc0) /\ pre_enter pc = pre_enter pc0) ->
   (forall k, o' = Some (TCls k) -> k_prev k = Connected -> hreg s = true) ->
+  (* a connect thread past KEnter stays past it, or ends having set the status *)
+  (forall pc0, thr s t = Some (TCon pc0) -> pre_enter pc0 = false ->
+     (exists pc, o' = Some (TCon pc) /\ pre_enter pc = false) \/ status s' = Connected) ->
   CbInv s'.
 Proof.
-  intros [C1 C2 C3 C4 C8 C5 C6 C7] NN TR HR KS ST EV OTH THT OA OC OK.
+  intros [C1 C2 C3 C4 C8 C5 C6 C7] NN TR HR KS ST EV OTH THT OA OC OK OC2.
   assert (CBS : hreg s = false -> cbs (trace s') = []).
   { intros F. rewrite TR. unfold cbs. rewrite filter_app. fold (cbs (trace s)). rewrite (C1 F). cbn.
     clear TR. revert EV. induction es as [|e es IH]; intros EV; cbn; auto. destruct (is_cb e) eqn:Ee.
@@ -93,24 +98,26 @@ Proof.
       split; auto. rewrite P. auto.
     + destruct (OTH t0 n) as [X|(_ & _ & X)]; [rewrite X in E; eauto|rewrite E in X; destruct X].
   - rewrite HR, KS. exact C8.
-  - intros t0 t1 pc pc' E0 E1.
-    assert (F : forall tx pcx, thr s' tx = Some (TCon pcx) -> exists pcy, thr s tx = Some (TCon pcy)).
-    { intros tx pcx Ex. destruct (N.eqb_spec tx t).
-      - subst tx. rewrite THT in Ex. destruct (OC pcx Ex) as (pc0 & Ey & _). eauto.
-      - destruct (OTH tx n) as [X|(_ & _ & X)]; [rewrite X in Ex; eauto|rewrite Ex in X; destruct X]. }
-    destruct (F _ _ E0) as (p0 & F0). destruct (F _ _ E1) as (p1 & F1). eapply C5; eauto.
-  - rewrite HR. intros X. destruct (ST X); auto.
+  - rewrite HR. intros T.
+    assert (STC : status s <> Connecting -> status s' <> Connecting).
+    { intros N. destruct ST as [-> |[-> |[-> _]]]; auto; discriminate. }
+    destruct (C5 T) as [N|(t1 & pc1 & E1 & P1)]; [left; auto|].
+    destruct (N.eqb_spec t1 t).
+    + subst t1. destruct (OC2 _ E1 P1) as [(pc & E' & P')|X].
+      * right. exists t, pc. rewrite THT. auto.
+      * left. rewrite X. discriminate.
+    + right. exists t1, pc1. split; auto.
+      destruct (OTH t1 n) as [X|(_ & X & _)]; [rewrite X; auto|congruence].
+  - rewrite HR. intros X. destruct ST as [E|[E|[_ H]]]; auto; [rewrite E in X; auto|rewrite E in X; discriminate].
   - intros t0 k E P. rewrite HR. destruct (N.eqb_spec t0 t); [subst t0; rewrite THT in E; eauto|].
     destruct (OTH t0 n) as [X|(_ & _ & X)]; [rewrite X in E; eauto|].
     rewrite E in X. rewrite X in P. discriminate.
 Qed.
 
-From Cfg Require Import Proofs.SubBroker Proofs.SubBrokerStep.
-
 Lemma Cb_step0 s s' t o' nt :
   CbInv s -> thr s t <> None ->
   trace s' = trace s -> hreg s' = hreg s -> kstarted s' = kstarted s ->
-  (status s' = Connected -> hreg s = true \/ status s = Connected) ->
+  (status s' = status s \/ status s' = Closed \/ (status s' = Connected /\ hreg s = true)) ->
   (forall t0, t0 <> t -> thr s' t0 = thr s t0 \/
                           (t0 = nt /\ thr s t0 = None /\
                            match thr s' t0 with Some (TCls k) => k_prev k = Connecting | Some (TJob _) => True | _ => False end)) ->
@@ -118,6 +125,8 @@ Lemma Cb_step0 s s' t o' nt :
   (forall a, o' = Some (TAtt a) -> a_kind a = Cli -> hreg s = true) ->
   (forall pc, o' = Some (TCon pc) -> exists pc0, thr s t = Some (TCon pc0) /\ pre_enter pc = pre_enter pc0) ->
   (forall k, o' = Some (TCls k) -> k_prev k = Connected -> hreg s = true) ->
+  (forall pc0, thr s t = Some (TCon pc0) -> pre_enter pc0 = false ->
+     (exists pc, o' = Some (TCon pc) /\ pre_enter pc = false) \/ status s' = Connected) ->
   CbInv s'.
 Proof.
   intros. eapply Cb_step with (es := []); eauto; try (rewrite app_nil_r; auto; fail); try (intros e []; fail).
@@ -126,7 +135,7 @@ Qed.
 Lemma Cb_step1 s s' t o' e nt :
   CbInv s -> thr s t <> None ->
   trace s' = trace s ++ [e] -> hreg s' = hreg s -> kstarted s' = kstarted s ->
-  (status s' = Connected -> hreg s = true \/ status s = Connected) ->
+  (status s' = status s \/ status s' = Closed \/ (status s' = Connected /\ hreg s = true)) ->
   (is_cb e = true -> e <> EvConnectCb /\ hreg s = true) ->
   (forall t0, t0 <> t -> thr s' t0 = thr s t0 \/
                           (t0 = nt /\ thr s t0 = None /\
@@ -135,6 +144,8 @@ Lemma Cb_step1 s s' t o' e nt :
   (forall a, o' = Some (TAtt a) -> a_kind a = Cli -> hreg s = true) ->
   (forall pc, o' = Some (TCon pc) -> exists pc0, thr s t = Some (TCon pc0) /\ pre_enter pc = pre_enter pc0) ->
   (forall k, o' = Some (TCls k) -> k_prev k = Connected -> hreg s = true) ->
+  (forall pc0, thr s t = Some (TCon pc0) -> pre_enter pc0 = false ->
+     (exists pc, o' = Some (TCon pc) /\ pre_enter pc = false) \/ status s' = Connected) ->
   CbInv s'.
 Proof.
   intros. eapply Cb_step with (es := [e]); eauto.
@@ -182,6 +193,12 @@ Ltac cb_side ET :=
         | intros ? X; discriminate X
         | intros ? X; rewrite ET; inversion X; subst; cbn; eauto ].
 
+Ltac oc2 ET := let pc0 := fresh in let X := fresh in let P := fresh in
+  intros pc0 X P;
+  first [ rewrite ET in X; discriminate X
+        | rewrite ET in X; inversion X; subst;
+          first [discriminate P | left; eexists; split; reflexivity | right; corec; reflexivity] ].
+
 Lemma att_step_Cb s t a b s' :
   CbInv s -> InvBS s -> thr s t = Some (TAtt a) -> att_step s t a b = Some s' -> CbInv s'.
 Proof.
@@ -208,13 +225,13 @@ Proof.
        |corec; rewrite ?C2, ?H2, ?G2; first [apply oth_plain | apply oth_spawn; [exact FR|exact NT|reflexivity]]
        |corec; rewrite ?C2, ?H2, ?G2; apply upd_same
        |intros ? X; inversion X; subst; cbn; intros; first [apply CLI; assumption | congruence | auto]
-       |intros ? X; discriminate X|intros ? X; discriminate X]; fail).
+       |intros ? X; discriminate X|intros ? X; discriminate X|oc2 ET]; fail).
   all: try (eapply Cb_step1 with (t := t) (nt := 2 * next_int s + 1); [exact CI|exact NN
        |corec; reflexivity|corec; reflexivity|corec; reflexivity|corec; auto
        |cbn; intros X; first [discriminate X | split; [discriminate|auto]]
        |corec; apply oth_plain|corec; apply upd_same
        |intros ? X; inversion X; subst; cbn; intros; first [apply CLI; assumption | congruence | auto]
-       |intros ? X; discriminate X|intros ? X; discriminate X]; fail).
+       |intros ? X; discriminate X|intros ? X; discriminate X|oc2 ET]; fail).
 Qed.
 
 (* generic application for threads that are neither attempts nor the connect thread *)
@@ -227,15 +244,16 @@ Ltac cb0 CI NN FR NT :=
     |intros ? X; inversion X; subst; cbn; auto].
 
 Lemma u_step_Cb s t th u b s1 ou o' :
-  CbInv s -> thr s t = Some th ->
+  CbInv s -> thr s t = Some th -> (forall pc, th <> TCon pc) ->
   (forall k, o' = Some (TCls k) -> k_prev k = Connected -> hreg s = true) ->
   match o' with Some (TAtt _) | Some (TCon _) => False | _ => True end ->
   u_step s t u b = Some (s1, ou) ->
   forall s', trace s' = trace s1 -> thr s' = upd (thr s1) t o' -> hreg s' = hreg s1 ->
              kstarted s' = kstarted s1 -> status s' = status s1 -> CbInv s'.
 Proof.
-  intros CI ET OK NO H s' TR TH HR KS ST.
+  intros CI ET NTC OK NO H s' TR TH HR KS ST.
   assert (NN : thr s t <> None) by congruence.
+  assert (OC2 : forall pc0, thr s t = Some (TCon pc0) -> False) by (intros pc0 X; rewrite ET in X; inversion X; eapply NTC; eauto).
   unfold u_step in H.
   destruct (hr_tr (u_ch u) (u_rm u) s) as (H1 & H2 & H3 & H4 & H5).
   destruct (u_pc u);
@@ -249,7 +267,8 @@ Proof.
             |rewrite KS; corec; rewrite ?H4, ?cgK; reflexivity|rewrite ST; corec; rewrite ?H5, ?cgS; auto
             |rewrite TH; corec; rewrite ?H2, ?cgTh; apply oth_plain
             |rewrite TH; corec; rewrite ?H2, ?cgTh; apply upd_same
-            |intros ? X; subst; destruct NO|intros ? X; subst; destruct NO|first [exact OK|intros; assumption|intros k0 X0 P0; pose proof (OK k0 X0 P0) as Q0; discriminate Q0]]; fail).
+            |intros ? X; subst; destruct NO|intros ? X; subst; destruct NO|first [exact OK|intros; assumption|intros k0 X0 P0; pose proof (OK k0 X0 P0) as Q0; discriminate Q0]
+            |intros pc0 X0 _; destruct (OC2 pc0 X0)]; fail).
   all: try (eapply Cb_step1 with (t := t) (nt := 0); [exact CI|exact NN
             |rewrite TR; corec; rewrite ?cgT; reflexivity|rewrite HR; corec; rewrite ?cgH; reflexivity
             |rewrite KS; corec; rewrite ?cgK; reflexivity|rewrite ST; corec; rewrite ?cgS; auto
@@ -257,27 +276,31 @@ Proof.
              repeat match goal with H : _ && _ = true |- _ => apply andb_true_iff in H; destruct H end; auto
             |rewrite TH; corec; rewrite ?cgTh; apply oth_plain
             |rewrite TH; corec; rewrite ?cgTh; apply upd_same
-            |intros ? X; subst; destruct NO|intros ? X; subst; destruct NO|first [exact OK|intros; assumption|intros k0 X0 P0; pose proof (OK k0 X0 P0) as Q0; discriminate Q0]]; fail).
+            |intros ? X; subst; destruct NO|intros ? X; subst; destruct NO|first [exact OK|intros; assumption|intros k0 X0 P0; pose proof (OK k0 X0 P0) as Q0; discriminate Q0]
+            |intros pc0 X0 _; destruct (OC2 pc0 X0)]; fail).
 Qed.
 
 Lemma Cb_enter s t :
-  CbInv s -> thr s t = Some (TCon KEnter) ->
+  CbInv s -> LInv s -> thr s t = Some (TCon KEnter) ->
   CbInv (thr_set t (TCon KHandler) (set_hreg true (log EvConnectCb s))).
 Proof.
-  intros [C1 C2 C3 C4 C8 C5 C6 C7] ET. destruct (C4 _ _ ET) as [KS HF]. cbn in HF.
+  intros CI LI ET. pose proof CI as [C1 C2 C3 C4 C8 C5 C6 C7]. destruct (C4 _ _ ET) as [KS _].
+  assert (SC : status s = Connecting) by (apply (l_conn _ LI t); rewrite ET; reflexivity).
+  (* connectMu is held and the status is still Connecting: no other connect command ran the handler *)
+  assert (HF : hreg s = false).
+  { destruct (hreg s) eqn:H; auto. exfalso. destruct (C5 eq_refl) as [N|(t1 & pc1 & E1 & P1)]; [congruence|].
+    assert (t1 = t).
+    { eapply (l_cmu1 _ LI); [rewrite E1|rewrite ET; reflexivity]. destruct pc1; try discriminate; reflexivity. }
+    subst. rewrite ET in E1. inv E1. discriminate. }
   constructor; corec.
   - discriminate.
   - intros _. exists []. rewrite cbs_app, (C1 HF). cbn. auto.
   - auto.
   - intros t0 pc. unfold upd. destruct (N.eqb_spec t0 t).
     + intros [= <-]. cbn. auto.
-    + intros E. exfalso. apply n. eapply C5; eauto.
+    + intros E. destruct (C4 _ _ E). auto.
   - auto.
-  - intros t0 t1 pc pc'. unfold upd.
-    destruct (N.eqb_spec t0 t); destruct (N.eqb_spec t1 t); subst; auto; intros E0 E1.
-    + eapply C5; eauto.
-    + eapply C5; eauto.
-    + eapply C5; eauto.
+  - intros _. right. exists t, KHandler. rewrite upd_same. auto.
   - auto.
   - auto.
 Qed.
@@ -291,49 +314,52 @@ Ltac cbplain_s CI NN FR NT ET s0 :=
       |corec; apply upd_same
       |intros ? X; discriminate X
       |intros ? X; inversion X; subst; rewrite ET; eauto
-      |intros ? X; inversion X; subst; cbn; intros; first [eapply (cb_prev _ CI); eauto; fail | auto]]
+      |intros ? X; inversion X; subst; cbn; intros; first [eapply (cb_prev _ CI); eauto; fail | auto]
+      |oc2 ET]
   | eapply Cb_step1 with (nt := 2 * next_int s0 + 1); [exact CI|exact NN
       |corec; reflexivity|corec; reflexivity|corec; reflexivity|corec; auto
       |cbn; intros X; first [discriminate X | split; [discriminate|auto]]
       |corec; apply oth_plain|corec; apply upd_same
       |intros ? X; discriminate X
       |intros ? X; inversion X; subst; rewrite ET; eauto
-      |intros ? X; inversion X; subst; cbn; intros; first [eapply (cb_prev _ CI); eauto; fail | auto]] ].
+      |intros ? X; inversion X; subst; cbn; intros; first [eapply (cb_prev _ CI); eauto; fail | auto]
+      |oc2 ET] ].
 
-Lemma step_thread_Cb s t b s' : CbInv s -> InvBS s -> step_thread s t b = Some s' -> CbInv s'.
+Lemma step_thread_Cb s t b s' : CbInv s -> InvBS s -> LInv s -> step_thread s t b = Some s' -> CbInv s'.
 Proof.
-  intros CI I H. unfold step_thread in H.
+  intros CI I LI H. unfold step_thread in H.
   destruct (thr s t) as [[a|u|k|k|pc|c]|] eqn:ET; try discriminate.
   all: assert (NN : thr s t <> None) by congruence.
   all: assert (FR : thr s (2 * next_int s + 1) = None) by (eapply fresh_int_b; eauto).
   all: assert (NT : t <> 2 * next_int s + 1) by (intros E; rewrite <- E in FR; congruence).
   - eapply att_step_Cb; eauto.
   - destruct (u_step s t u b) as [[s1 [u'|]]|] eqn:EU; inv H.
-    + eapply (u_step_Cb s t _ u b s1 _ (Some (TUns u')) CI ET); [intros ? X; discriminate X|exact Logic.I|exact EU
+    + eapply (u_step_Cb s t _ u b s1 _ (Some (TUns u')) CI ET); [intros ? X; discriminate X|intros ? X; discriminate X|exact Logic.I|exact EU
         |corec; reflexivity|corec; reflexivity|corec; reflexivity|corec; reflexivity|corec; reflexivity].
-    + eapply (u_step_Cb s t _ u b s1 _ None CI ET); [intros ? X; discriminate X|exact Logic.I|exact EU
+    + eapply (u_step_Cb s t _ u b s1 _ None CI ET); [intros ? X; discriminate X|intros ? X; discriminate X|exact Logic.I|exact EU
         |corec; reflexivity|corec; reflexivity|corec; reflexivity|corec; reflexivity|corec; reflexivity].
   - (* close *)
     unfold cls_step in H. destruct (k_pc k) eqn:EPC.
     8:{ destruct (k_cur k) as [u|] eqn:EC.
         - destruct (u_step s t u b) as [[s1 ou]|] eqn:EU; [|discriminate]. inv H.
           eapply (u_step_Cb s t _ u b s1 ou (Some (TCls (mkC CLoop (k_prev k) (k_rest k) ou))) CI ET);
-            [intros k0 X P; inversion X; subst; cbn in P; eapply (cb_prev _ CI); eauto
+            [intros ? X; discriminate X
+            |intros k0 X P; inversion X; subst; cbn in P; eapply (cb_prev _ CI); eauto
             |exact Logic.I|exact EU|corec; reflexivity|corec; reflexivity|corec; reflexivity|corec; reflexivity|corec; reflexivity].
         - destruct (k_rest k); [|destruct b]; inv H; cbplain_s CI NN FR NT ET s;
             intros; eapply (cb_prev _ CI); eauto. }
     3:{ (* CFlip *)
         destruct (is_closed (status s)) eqn:CL; inv H; [cbplain_s CI NN FR NT ET s|].
         eapply Cb_step0 with (nt := 0); [exact CI|exact NN|corec; reflexivity|corec; reflexivity|corec; reflexivity
-          |corec; discriminate|corec; apply oth_plain|corec; apply upd_same
+          |corec; right; left; reflexivity|corec; apply oth_plain|corec; apply upd_same
           |intros ? X; discriminate X|intros ? X; discriminate X
-          |intros k0 X P; inversion X; subst; cbn in P; apply (cb_conn _ CI); auto]. }
+          |intros k0 X P; inversion X; subst; cbn in P; apply (cb_conn _ CI); auto|oc2 ET]. }
     7:{ (* CDisc *)
         inv H. destruct (is_connected (k_prev k)) eqn:PK.
         - assert (HR : hreg s = true) by (eapply (cb_prev _ CI); eauto; destruct (k_prev k); try discriminate; auto).
           eapply Cb_step1 with (nt := 0); [exact CI|exact NN|corec; reflexivity|corec; reflexivity|corec; reflexivity
             |corec; auto|cbn; intros _; split; [discriminate|exact HR]|corec; apply oth_plain|corec; apply upd_same
-            |intros ? X; discriminate X|intros ? X; discriminate X|intros; exact HR].
+            |intros ? X; discriminate X|intros ? X; discriminate X|intros; exact HR|oc2 ET].
         - cbplain_s CI NN FR NT ET s. }
     all: repeat match type of H with (if ?c then _ else _) = _ => destruct c eqn:? end;
          try discriminate; inv H; cbplain_s CI NN FR NT ET s;
@@ -353,10 +379,11 @@ Proof.
          try discriminate; inv H.
     all: try (cbplain_s CI NN FR NT ET s; fail).
     (* KSet: status becomes Connected; the handlers are registered *)
-    destruct (cb_con _ CI _ _ ET) as [KS HR]. cbn in HR.
+    destruct (cb_con _ CI _ _ ET) as [KS HR]. specialize (HR eq_refl).
     eapply Cb_step0 with (nt := 0); [exact CI|exact NN|corec; reflexivity|corec; reflexivity|corec; reflexivity
-      |corec; auto|corec; apply oth_plain|corec; apply upd_same
-      |intros ? X; discriminate X|intros ? X; discriminate X|intros ? X; discriminate X].
+      |corec; right; right; split; [reflexivity|exact HR]|corec; apply oth_plain|corec; apply upd_same
+      |intros ? X; discriminate X|intros ? X; discriminate X|intros ? X; discriminate X
+      |intros ? ? ?; right; corec; reflexivity].
   - unfold job_step in H. destruct b; inv H; cbplain_s CI NN FR NT ET s.
 Qed.
 
@@ -367,7 +394,7 @@ Lemma Cb_spawn s s' tn x :
   thr s' = upd (thr s) tn (Some x) ->
   match x with
   | TAtt a => a_kind a = Cli -> hreg s = true
-  | TCon pc => kstarted s = false /\ hreg s = false /\ pre_enter pc = true /\ kstarted s' = true
+  | TCon pc => pre_enter pc = true /\ kstarted s' = true
   | TCls k => k_prev k = Connecting
   | _ => True
   end ->
@@ -375,26 +402,21 @@ Lemma Cb_spawn s s' tn x :
   CbInv s'.
 Proof.
   intros [C1 C2 C3 C4 C8 C5 C6 C7] FR TR HR ST TH X KS.
-  assert (NOCON : (exists pc, x = TCon pc) -> forall t0 pc0, thr s t0 = Some (TCon pc0) -> False).
-  { intros (pc & ->) t0 pc0 E. destruct X as (K & _). destruct (C4 _ _ E). congruence. }
+  assert (KM : kstarted s = true -> kstarted s' = true).
+  { intros K. destruct x; try (rewrite KS; auto). destruct X; auto. }
   constructor; rewrite ?TR, ?HR, ?ST; auto.
   - intros t0 a. rewrite TH. unfold upd. destruct (N.eqb_spec t0 tn); [intros [= ->]; auto|eauto].
   - intros t0 pc. rewrite TH. unfold upd. destruct (N.eqb_spec t0 tn).
-    + intros [= ->]. destruct X as (K & H & P & K'). rewrite H, P. auto.
+    + intros [= ->]. destruct X as (P & K'). split; auto. rewrite P. discriminate.
     + intros E. destruct (C4 _ _ E) as [A B]. split; auto.
-      destruct x; try (rewrite KS; auto). exfalso. eapply NOCON; eauto.
-  - intros T. specialize (C8 T). destruct x; try (rewrite KS; auto). destruct X as (_ & H & _). congruence.
-  - intros t0 t1 pc pc'. rewrite TH. unfold upd.
-    destruct (N.eqb_spec t0 tn); destruct (N.eqb_spec t1 tn); subst; auto.
-    + intros [= ->] E. exfalso. eapply NOCON; eauto.
-    + intros E [= ->]. exfalso. eapply NOCON; eauto.
-    + eauto.
+  - intros T. specialize (C5 T). destruct C5 as [N|(t1 & pc1 & E1 & P1)]; auto.
+    right. exists t1, pc1. split; auto. rewrite TH, upd_other; auto. intros ->. congruence.
   - intros t0 k. rewrite TH. unfold upd. destruct (N.eqb_spec t0 tn); [intros [= ->] P; rewrite X in P; discriminate|eauto].
 Qed.
 
-Lemma astep_Cb s l s' : CbInv s -> InvBS s -> astep s l = Some s' -> CbInv s'.
+Lemma astep_Cb s l s' : CbInv s -> InvBS s -> LInv s -> astep s l = Some s' -> CbInv s'.
 Proof.
-  intros CI I H. destruct l; cbn in H.
+  intros CI I LI H. destruct l; cbn in H.
   - (* spawn *)
     unfold spawn in H.
     assert (FR : thr s (2 * next_ext s) = None) by (eapply fresh_ext_b; eauto).
@@ -408,11 +430,6 @@ Proof.
                          |intros _; repeat match goal with H : _ && _ = true |- _ => apply andb_true_iff in H; destruct H end; assumption
                          |auto]
              |cbn; corec; auto]; fail).
-    + (* OConnect *)
-      eapply Cb_spawn with (tn := 2 * next_ext s); [exact CI|exact FR|corec; reflexivity|corec; reflexivity
-             |corec; reflexivity|corec; reflexivity| |cbn; auto].
-      cbn. corec. repeat split; auto. destruct (hreg s) eqn:HG; auto.
-      rewrite (cb_hk _ CI HG) in Heqb. discriminate.
     + (* OShutdown *)
       destruct (reg s).
       * eapply Cb_spawn with (tn := 2 * next_int s + 1); [exact CI|exact FRI|corec; reflexivity|corec; reflexivity
@@ -433,7 +450,7 @@ Proof.
           |corec; rewrite ?K5; auto
           |corec; rewrite ?K2, ?cg_ni'; apply oth_spawn; [exact FR|exact NT|reflexivity]
           |corec; rewrite ?K2, ?cg_ni'; apply upd_same
-          |intros ? X; discriminate X|intros ? X; discriminate X|intros ? X; discriminate X]).
+          |intros ? X; discriminate X|intros ? X; discriminate X|intros ? X; discriminate X|oc2 ET]).
     + destruct (k_pc k); try discriminate. destruct (k_cur k) as [u|]; try discriminate.
       destruct (u_timeout s u) as [s1|] eqn:EU; inv H. unfold u_timeout in EU.
       destruct (u_pc u); try discriminate. inv EU.
@@ -445,7 +462,7 @@ Proof.
           |corec; rewrite ?K2, ?cg_ni'; apply oth_spawn; [exact FR|exact NT|reflexivity]
           |corec; rewrite ?K2, ?cg_ni'; apply upd_same
           |intros ? X; discriminate X|intros ? X; discriminate X
-          |intros k0 X P; inversion X; subst; cbn in P; eapply (cb_prev _ CI); eauto]).
+          |intros k0 X P; inversion X; subst; cbn in P; eapply (cb_prev _ CI); eauto|oc2 ET]).
   - (* job start *)
     unfold job_start in H. destruct (mem c (jobs s) && negb (slock s c)); [|discriminate].
     assert (FRI : thr s (2 * next_int s + 1) = None) by (eapply fresh_int_b; eauto).
@@ -462,12 +479,12 @@ Proof.
       constructor; corec; auto.
 Qed.
 
-Theorem exec_Cb l : forall s s', CbInv s -> InvBS s -> exec l s = Some s' -> CbInv s'.
+Theorem exec_Cb l : forall s s', CbInv s -> InvBS s -> LInv s -> exec l s = Some s' -> CbInv s'.
 Proof.
-  induction l as [|x l IH]; cbn; intros s s' CI I H.
+  induction l as [|x l IH]; cbn; intros s s' CI I LI H.
   - inv H. auto.
   - destruct (astep s x) as [s1|] eqn:E; [|discriminate].
-    apply (IH s1 s'); auto; [eapply astep_Cb|eapply astep_B]; eauto.
+    apply (IH s1 s'); auto; [eapply astep_Cb|eapply astep_B|eapply astep_L]; eauto.
 Qed.
 
 (* ---- C08 statements ---- *)
@@ -476,7 +493,7 @@ Theorem connect_first_once sched s :
   exec sched init = Some s ->
   cbs (trace s) = [] \/ exists l, cbs (trace s) = EvConnectCb :: l /\ ~ In EvConnectCb l.
 Proof.
-  intros E. assert (CI : CbInv s) by (eapply exec_Cb; eauto; [apply CbInv_init|apply InvBS_init]).
+  intros E. assert (CI : CbInv s) by (eapply exec_Cb; eauto; [apply CbInv_init|apply InvBS_init|apply LInv_init]).
   destruct (hreg s) eqn:H; [right; apply (cb_first _ CI H)|left; apply (cb_none _ CI H)].
 Qed.
 
